@@ -19,7 +19,7 @@ seed-dependent ingredients are generic atoms drawn from env.rng(tag).
              alphabet (ALL matrix units / all two-unit partial identities, two structured sums, generic atoms of rank
              r-1 and, for r=3, rank 1), A_i generic atoms, basis chosen by EVERY element of the change-of-basis alphabet
              {planted first, planted last, dense integer, generic invertible, planar rotation of the (planted, A_1) pair
-             by t in T_ROT with the near-planted element first / last}; all N, all levels k, real and complex.
+             by t in T_ROT[tier] with the near-planted element first / last}; all N, all levels k, real and complex.
              Oracle 2: the answer must be False (a True answer certifies 'every non-zero element has rank >= r').
   abc      : is_ABC_completely_entangled_subspace(B, k): same construction with a planted product vector a(x)b(x)c
              (ALL basis product vectors, two structured ones, generic atoms).  Must be False.
@@ -89,7 +89,7 @@ C_SAFETY = 1e3
 EPS = 2.220446049250313e-16
 SIGMA_HI = 1e-6    # reference singular values above this are "non-zero"
 SIGMA_LO = 1e-11   # ... below this are "zero" (library threshold zero_eps=1e-10 lies in between)
-T_ROT = (1e-3, 1e-4, 1e-5)   # planar rotation angles of the near-aligned change of basis
+T_ROT = {'quick': (1e-3, 1e-4, 1e-5), 'thorough': (1e-2, 1e-3, 1e-4, 1e-5, 1e-6)}   # planar rotation angles of the near-aligned change of basis
 
 
 # =============================================================================================== reference: classes
@@ -471,12 +471,14 @@ def change_of_basis(N, cplx, rng):
     return ret
 
 
-def handed_bases(gens, cplx, rng, out):
+def handed_bases(gens, cplx, rng, out, rot, reduced=False):
     """every orthonormal basis the change-of-basis alphabet produces for span(gens); gens[0] is the planted element.
     yields (label, family, basis)"""
     N = gens.shape[0]
     Q0 = None
     for lab, M in change_of_basis(N, cplx, rng):
+        if reduced and lab in ('last', 'dense'):
+            continue
         B, cond = orthonormalise(np.tensordot(M, gens, axes=(1, 0)))
         if cond < 1e-6:
             out.count('skipped_ill_conditioned')
@@ -485,7 +487,7 @@ def handed_bases(gens, cplx, rng, out):
             Q0 = B
         yield lab, 'generic_basis', B
     if N >= 2 and Q0 is not None:
-        for t in T_ROT:
+        for t in rot:
             B = Q0.copy()
             B[0] = np.cos(t) * Q0[0] + np.sin(t) * Q0[1]
             B[1] = -np.sin(t) * Q0[0] + np.cos(t) * Q0[1]
@@ -565,6 +567,8 @@ def run_certificate(case, out, env):
     rng = env.rng(kind, dims, case.get('r'), N, cplx, case.get('sym', False))
     dt = np.complex128 if cplx else np.float64
     sym = bool(case.get('sym', False))
+    reduced = bool(case.get('reduced', False))  # large configuration: generic planted atoms x {first, atom} bases only
+    rot = () if reduced else tuple(case['rot'])
 
     def generic(k):
         x = gauss(rng, (k,) + dims, cplx)
@@ -589,6 +593,8 @@ def run_certificate(case, out, env):
         k = case['k']
         site = 'abc/is_ABC_completely_entangled_subspace'
         planted = planted_products(dims, cplx, G, rng)
+        if reduced:
+            planted = planted[-G:]
         streams = [None]
 
         def call(B, stream):
@@ -618,7 +624,7 @@ def run_certificate(case, out, env):
     for plab, P in planted:
         P = np.asarray(P, dtype=dt)
         gens = np.concatenate([P[None], atoms.astype(dt)], axis=0)
-        for blab, family, B in handed_bases(gens, cplx, env.rng(kind, 'basis', dims, N, cplx), out):
+        for blab, family, B in handed_bases(gens, cplx, env.rng(kind, 'basis', dims, N, cplx), out, rot, reduced):
             verify_handed(B, P)
             for stream in streams:
                 out.state()
@@ -632,17 +638,17 @@ def run_certificate(case, out, env):
                     continue
                 if issued(ans):
                     extra = (' upper_bound-1=%.3g' % (ans[1] - 1)) if isinstance(ans, tuple) else ''
-                    out.violation('%s/false_certificate/%s' % (site, family),
+                    out.violation('%s/false_certificate' % site,
                                   '%s for an orthonormal basis of a %d-dimensional %s subspace of %s tensors that contains the %s element %s '
-                                  '(basis choice %s)%s' % (what, N, 'complex' if cplx else 'real', 'x'.join(str(d) for d in dims),
-                                                          'rank-%d' % matrix_rank_exact(P) if P.ndim == 2 else 'product', plab, blab, extra),
-                                  basis=B, planted=P, planted_label=plab, basis_label=blab, entropy_stream=stream, **cfgdet)
+                                  '(basis choice %s: %s)%s' % (what, N, 'complex' if cplx else 'real', 'x'.join(str(d) for d in dims),
+                                                              'rank-%d' % matrix_rank_exact(P) if P.ndim == 2 else 'product', plab, blab, family, extra),
+                                  basis=B, planted=P, planted_label=plab, basis_label=blab, basis_family=family, entropy_stream=stream, **cfgdet)
                 else:
                     out.trace()
                 out.outcome((kind, dims, case.get('r'), N, case.get('k'), cplx, sym, 'planted', blab.split('(')[0], issued(ans)), nontrivial=False)
     # generic twins: same construction without the planted element (recorded only)
     gens = np.concatenate([twin[None].astype(dt), atoms.astype(dt)], axis=0)
-    for blab, family, B in handed_bases(gens, cplx, env.rng(kind, 'basis', dims, N, cplx), out):
+    for blab, family, B in handed_bases(gens, cplx, env.rng(kind, 'basis', dims, N, cplx), out, (), reduced):
         if family != 'generic_basis':
             continue
         for stream in streams:
@@ -657,7 +663,7 @@ def run_certificate(case, out, env):
             out.outcome((kind, dims, case.get('r'), N, case.get('k'), cplx, sym, 'twin', issued(ans)), nontrivial=issued(ans))
             out.trace()
     out.sample = dict(cfgdet, planted_alphabet=[l for l, _ in planted][:4] + ['...'], planted_alphabet_size=len(planted),
-                      planted_states=n_planted_states, rotation_angles=list(T_ROT))
+                      planted_states=n_planted_states, rotation_angles=list(rot))
 
 
 # =============================================================================================== numerical range
@@ -763,14 +769,10 @@ DECOMP_COMBOS = [('Rgen', 'real'), ('Rsym', 'real'), ('Rgen', 'complex'), ('Rsym
                  ('Csym', 'complex'), ('Csym', 'real'), ('Cgen', 'real'), ('Cherm', 'complex')]
 
 
-def hier_generic_max(dA, dB, r):
-    """largest dimension in which a generic subspace has no element of rank < r"""
-    return (dA - r + 2) * (dB - r + 2)
-
-
 def build_cases(tier, seed):
     quick = tier == 'quick'
     G = 2 if quick else 4
+    rot = list(T_ROT[tier])
     dmax = 4 if quick else 5
     cases = []
     # ---- decomp
@@ -790,41 +792,47 @@ def build_cases(tier, seed):
     shapes1 = [(2, 2), (2, 3), (3, 3), (3, 4)] if quick else [(2, 2), (2, 3), (2, 4), (3, 3), (3, 4), (4, 4)]
     for dA, dB in shapes1:
         nmax = (dA - 1) * (dB - 1) + 1
+        if quick and dA * dB > 9:
+            nmax = 3
         for N in range(1, nmax + 1):
-            cases.append({'kind': 'rank1', 'dims': [dA, dB], 'N': N, 'G': G, 'streams': 2 if quick else 3, 'sym': False})
+            cases.append({'kind': 'rank1', 'dims': [dA, dB], 'N': N, 'G': G, 'streams': 2 if quick else 3, 'sym': False, 'rot': rot})
             if dA == dB and N <= dA * (dA - 1) // 2 + 1:
-                cases.append({'kind': 'rank1', 'dims': [dA, dB], 'N': N, 'G': G, 'streams': 2 if quick else 3, 'sym': True})
+                cases.append({'kind': 'rank1', 'dims': [dA, dB], 'N': N, 'G': G, 'streams': 2 if quick else 3, 'sym': True, 'rot': rot})
     # ---- abc
     if quick:
-        abc_cfg = [((2, 2, 2), range(1, 6), (1, 2, 3)), ((2, 2, 3), range(1, 5), (1, 2))]
+        abc_cfg = [((2, 2, 2), range(1, 6), (1, 2)), ((2, 2, 2), range(1, 4), (3,)), ((2, 2, 3), range(1, 5), (1, 2))]
     else:
-        abc_cfg = [((2, 2, 2), range(1, 6), (1, 2, 3)), ((2, 2, 3), range(1, 8), (1, 2)), ((2, 2, 3), range(1, 5), (3,)),
+        abc_cfg = [((2, 2, 2), range(1, 6), (1, 2, 3)), ((2, 2, 3), range(1, 8), (1, 2)), ((2, 2, 3), range(1, 6), (3,)),
                    ((2, 3, 3), range(1, 5), (1, 2))]
     for dims, Ns, ks in abc_cfg:
         for N in Ns:
             for k in ks:
                 for field in ('real', 'complex'):
-                    cases.append({'kind': 'abc', 'dims': list(dims), 'N': N, 'k': k, 'field': field, 'G': G})
+                    cases.append({'kind': 'abc', 'dims': list(dims), 'N': N, 'k': k, 'field': field, 'G': G, 'rot': rot})
+    if not quick:
+        # one large configuration with a reduced alphabet (generic planted atoms x {planted first, generic invertible} bases)
+        cases.append({'kind': 'abc', 'dims': [2, 3, 3], 'N': 11, 'k': 3, 'field': 'real', 'G': G, 'rot': [], 'reduced': True})
     # ---- hier
     if quick:
         hier_cfg = [((3, 3), 2, range(1, 5), (1, 2, 3)), ((3, 3), 3, range(1, 3), (1, 2, 3)), ((3, 4), 2, range(1, 5), (1, 2)),
                     ((4, 4), 2, range(1, 4), (1, 2)), ((4, 4), 3, range(1, 4), (1, 2))]
     else:
         hier_cfg = [((3, 3), 2, range(1, 6), (1, 2, 3)), ((3, 3), 3, range(1, 3), (1, 2, 3)), ((3, 4), 2, range(1, 7), (1, 2)),
-                    ((3, 4), 2, range(1, 5), (3,)), ((4, 4), 2, range(1, 7), (1, 2)), ((4, 4), 2, range(1, 4), (3,)),
+                    ((3, 4), 2, range(1, 5), (3,)), ((3, 4), 3, range(1, 4), (1, 2)), ((4, 4), 2, range(1, 7), (1, 2)), ((4, 4), 2, range(1, 5), (3,)),
                     ((4, 4), 3, range(1, 5), (1, 2)), ((4, 4), 3, range(1, 4), (3,))]
     for (dA, dB), r, Ns, ks in hier_cfg:
         for N in Ns:
             for k in ks:
                 for field in ('real', 'complex'):
-                    cases.append({'kind': 'hier', 'dims': [dA, dB], 'r': r, 'N': N, 'k': k, 'field': field, 'G': G})
+                    cases.append({'kind': 'hier', 'dims': [dA, dB], 'r': r, 'N': N, 'k': k, 'field': field, 'G': G, 'rot': rot})
     info = {
         'decomp': {'combos': ['%s/%s->%s' % (g, f, EXPECT[(g, f)]) for g, f in DECOMP_COMBOS], 'dims': [2, dmax], 'atom_sets': G,
                    'patterns': list(PATTERNS), 'generators': '1..ambient independent atoms (+ up to 2 dependent ones), unit lists, zero lists'},
         'hier': [{'shape': list(s), 'rank_bound': r, 'N': [min(Ns), max(Ns)], 'levels': list(ks)} for s, r, Ns, ks in hier_cfg],
         'abc': [{'dims': list(d), 'N': [min(Ns), max(Ns)], 'levels': list(ks)} for d, Ns, ks in abc_cfg],
-        'rank1': {'shapes': [list(s) for s in shapes1], 'N': '1..(dA-1)(dB-1)+1', 'symmetric_variant': 'square shapes'},
-        'change_of_basis_alphabet': ['first', 'last', 'dense', 'atom'] + ['rot(%g,first|last)' % t for t in T_ROT],
+        'rank1': {'shapes': [list(s) for s in shapes1], 'N': '1..(dA-1)(dB-1)+1 (quick: 1..3 for shapes with more than 9 entries)',
+                  'symmetric_variant': 'square shapes'},
+        'change_of_basis_alphabet': ['first', 'last', 'dense', 'atom'] + ['rot(%g,first|last)' % t for t in rot],
         'numrange': {'n': [2, 8], 'num_point': num_point, 'entropy_streams': 2 if quick else 4},
         'generic_atoms_per_alphabet': G,
         'exhaustive': True,
